@@ -589,6 +589,10 @@ def near_miss(o, kind, root):
 
 def check(col, root, how, case_label):
     """Run one validation and compare with the evaluator; returns the set of expected kinds (for class keys)."""
+    if col.saturated():
+        # the verdict is settled (the collector keeps at most max_failures); the diagnosis of every further
+        # failure (validation of single objects, equal-content search) would take hours on a broken tree
+        return frozenset()
     ex = expect(root)
     if how == 'Document.validate':
         res = h.call(root.validate)
